@@ -1287,7 +1287,7 @@ def make_cases(ctx: Ctx, label: str, n: int) -> List[Dict[str, Any]]:
 
 def oracle(ctx: Ctx, res: Result, label: str = "oracle", n_seeds: Optional[int] = None, n_cases: Optional[int] = None) -> None:
     seeds = list(range(n_seeds or ctx.budget(8, 64)))
-    cases = make_cases(ctx, label, n_cases or ctx.budget(10, 28))
+    cases = make_cases(ctx, label, n_cases or ctx.budget(10, 22))
     for c in cases:
         for k, v in c["meta"].items():
             res.distribution[f"{label}:max:{k}"] = max(res.distribution.get(f"{label}:max:{k}", 0), v)
@@ -1297,7 +1297,7 @@ def oracle(ctx: Ctx, res: Result, label: str = "oracle", n_seeds: Optional[int] 
             res.count(f"{label}:plugin:" + p.rsplit(".", 1)[1])
         res.count(f"{label}:comments:" + c["config"]["include_comments"])
     gs = []
-    for c in cases[: ctx.budget(4, 10)]:
+    for c in cases[: ctx.budget(4, 8)]:
         gs += [schema_case(c, "py"), schema_case(c, "graphql")]
     # hash seed i comes with creation order i; the diagnosis step separates the two factors
     judge_matrix(ctx, res, cases + gs, [(s, s) for s in seeds], label)
